@@ -50,13 +50,24 @@ let dinstrstr = function DAck s -> "A" ^ sn s | DCancel s -> "X" ^ sn s | DIncre
 
 let nfields t = string_of_int (List.length t.dt_fields)
 let dropped t = t.dt_vas.v_dropped
+(* FNV-1a (32 bit) over the table contents: per entry len(name), name, len(value), value *)
+let fnv h b = ((h lxor (b land 0xff)) * 16777619) land 0xFFFFFFFF
+let digest t =
+  let h = ref 2166136261 in
+  List.iter (fun (n, v) ->
+    h := fnv !h (List.length n); List.iter (fun b -> h := fnv !h (int_of_n b)) n;
+    h := fnv !h (List.length v); List.iter (fun b -> h := fnv !h (int_of_n b)) v) t.dt_fields;
+  Printf.sprintf "h%08x" !h
+let pairs l = joinor "+" (List.map (fun (r, c) -> Printf.sprintf "%d*%d" r c) (List.sort compare l))
 let estate t =
-  let tr = List.sort compare (List.map (fun (r, c) -> (int_of_n r, int_of_n c)) t.dt_track) in
-  let nblocks = List.fold_left (fun a (_, q) -> a + List.length q) 0 t.dt_blocks in
-  Printf.sprintf "t%s.%s.%s.%s.%s/%s/%s.%s/%d" (sn t.dt_vas.v_inserted) (sn (dropped t)) (sn t.dt_curr) (sn t.dt_max) (nfields t)
-    (joinor "+" (List.map (fun (r, c) -> Printf.sprintf "%d*%d" r c) tr)) (sn t.dt_bcount) (sn t.dt_lkr) nblocks
+  let tr = List.map (fun (r, c) -> (int_of_n r, int_of_n c)) t.dt_track in
+  let bs = List.map (fun (r, c) -> (int_of_n r, int_of_n c)) t.dt_bstreams in
+  let blocks = List.sort compare (List.map (fun (sid, q) -> (sn sid, List.length q)) t.dt_blocks) in
+  Printf.sprintf "t%s.%s.%s.%s.%s.%s/%s/%s.%s.%s/%s" (sn t.dt_vas.v_inserted) (sn (dropped t)) (sn t.dt_curr) (sn t.dt_max) (nfields t) (digest t)
+    (pairs tr) (sn t.dt_bcount) (sn t.dt_lkr) (pairs bs)
+    (joinor "+" (List.map (fun (sid, l) -> Printf.sprintf "%s*%d" sid l) blocks))
 let dstate t =
-  Printf.sprintf "d%s.%s.%s.%s.%s" (sn t.dt_vas.v_inserted) (sn (dropped t)) (sn t.dt_curr) (sn t.dt_max) (nfields t)
+  Printf.sprintf "d%s.%s.%s.%s.%s.%s" (sn t.dt_vas.v_inserted) (sn (dropped t)) (sn t.dt_curr) (sn t.dt_max) (nfields t) (digest t)
 
 let parse_field s =
   match String.index_opt s '=' with
